@@ -3,7 +3,7 @@ sys.path.insert(0, '/verif')
 from pyvc.frontend import Program
 from pyvc.specs import REG
 from pyvc import verify, solve
-import contracts.core
+import contracts.all
 prog = Program()
 t0=time.time()
 key = sys.argv[1] if len(sys.argv)>1 else 'Core.SystemManager.add_system'
@@ -11,6 +11,7 @@ c = REG.contracts[key]
 allobs=[]
 for mode in c.modes:
   for case in (c.cases or [None]):
+    if case is not None and case.get('mode') not in (None, mode): continue
     rep = verify.verify_function(prog, REG, key, mode=mode, case=case)
     print('paths', rep.paths, 'obs', len(rep.obs), 'err', rep.error, time.time()-t0)
     allobs += rep.obs
